@@ -33,6 +33,16 @@ func mix64(x uint64) uint64 {
 	return x ^ (x >> 31)
 }
 
+// drawSchedFocus is drawSched with half of the active plans restricted to the given points at the heavy
+// level (a test whose subject lives at particular points spends its perturbation budget there).
+func drawSchedFocus(rt *rapid.T, mask uint32) schedPlan {
+	p := drawSched(rt)
+	if p.Level > 0 && rapid.Bool().Draw(rt, "sched-focus") {
+		p.Level, p.Points = 2, mask
+	}
+	return p
+}
+
 // drawSched draws a perturbation plan.
 func drawSched(rt *rapid.T) schedPlan {
 	p := schedPlan{Level: []int{0, 1, 1, 2}[rapid.IntRange(0, 3).Draw(rt, "sched-level")]}
@@ -45,7 +55,7 @@ func drawSched(rt *rapid.T) schedPlan {
 	if rapid.Bool().Draw(rt, "sched-all") {
 		p.Points = 0xffffffff
 	} else {
-		p.Points = 1 << uint(rapid.IntRange(1, 16).Draw(rt, "sched-point"))
+		p.Points = 1 << uint(rapid.IntRange(1, 18).Draw(rt, "sched-point"))
 	}
 	return p
 }
